@@ -1,0 +1,76 @@
+//go:build verif
+
+package elasticsearch
+
+// Contracts for the verification harness under /verif (comment-only file).
+//
+// C19: when a too-large bulk request is split and resent, the parts cover the
+// batch exactly once.  begin[k] is the offset of event k in data (begin[n] = end);
+// the ghost cursor sentTo is the offset up to which data has been accepted by
+// Elasticsearch.  DoTimeout is the environment: it may fail (with any status,
+// 413 included) or succeed on every call.
+
+//@ func (*Plugin).sendSplit
+//@   pure
+//@   ghost sentTo int
+//@   ghostout sentTo
+//@   requires 0 <= left && left <= right && right < len(begin)
+//@   requires nondecreasing(begin) && allrange(begin, 0, len(data) + 1)
+//@   requires sentTo == begin[left]
+//@   ensures result1 == nil ==> sentTo == begin[right]
+//@   ensures result1 != nil ==> begin[left] <= sentTo && sentTo <= begin[right]
+//@   ensures left == right ==> result1 == nil
+//@   callee DoTimeout(method, ct, body, timeout, fn) (code, err)
+//@     requires sameblock(body, data) && off(body) == off(data) + begin[left] && len(body) == begin[right] - begin[left]
+//@     requires sentTo == begin[left]
+//@     pure
+//@     ghostout sentTo
+//@     ensures err == nil ==> sentTo == old(sentTo) + len(body)
+//@     ensures err != nil ==> sentTo == old(sentTo)
+//@   callee WithLabelValues(l)
+//@     pure
+//@   callee Inc()
+//@     pure
+
+// appendIndexName: what is spliced between the quotes of "_index" must be a
+// JSON string body.  The event's own field value is appended raw: KNOWN FINDING
+// (a value with a quote, backslash or control character breaks the action line).
+
+//@ func (*Plugin).appendIndexName
+//@   option allow-exit yes
+//@   loop 1 invariant 0 <= replacements
+//@   assert at "outBuf = append(outBuf, value...)" nochr(value, '"') && nochr(value, '\\') && allchr(value, 32, 255)
+//@   callee Dig(path) (n)
+//@     pure
+//@   callee AsString() (s)
+//@     pure
+//@   callee StringToByteUnsafe(s)
+//@     pure
+
+// Start: the retry loop's notion of "a dead queue exists" is the router's, and the
+// error callback forwards every event of the failed batch to Router.Fail once.
+
+//@ func (*Plugin).Start
+//@   option allow-exit yes
+//@   ghost dq bool = false
+//@   requires typeis(config, "*github.com/ozontech/file.d/plugin/output/elasticsearch.Config")
+//@   callee IsDeadQueueAvailable() (avail)
+//@     pure
+//@     set dq := avail
+//@   callee NewRetriableBatcher(bo, fn, opts, onErr)
+//@     requires opts.IsDeadQueueAvailable == dq
+//@     requires opts.AttemptNum == p.config.Retry
+
+//@ func (*Plugin).Start$1
+//@   option allow-exit yes
+//@   ghost nfail int = 0
+//@   ensures nfail == len(events)
+//@   loop 1 invariant nfail == rangeindex + 1 && rangeindex < len(events)
+//@   callee Fail(e)
+//@     requires e == events[rangeindex] && nfail == rangeindex
+//@     pure
+//@     set nfail := nfail + 1
+//@   callee IsDeadQueueAvailable() (r)
+//@     pure
+//@   callee Log(l, m, f)
+//@     pure
